@@ -197,6 +197,23 @@ def run(repo: Repo, chk: Check, thorough: bool = False) -> None:
                f'{what} are built by docutils as raw `href="#<id>"` strings while the ids themselves are emitted as `rst-<id>` by starttag(): a reference '
                '`[1]_` gets id="rst-footnote-reference-1" and its footnote links back to `#footnote-reference-1`, which does not exist', (ov.loc if ov else trc.loc))
 
+    # a summary is shown on OTHER pages (tables of the parent, indexes): nodes that refer to a target inside the same docstring (footnote and
+    # citation references, internal hyperlink references) must not be copied into it as they are
+    se_ = repo.cls('pydoctor.epydoc.markup.SummaryExtractor')
+    vp_ = se_.methods.get('visit_paragraph')
+    if vp_ is None:
+        raise AnalysisError('R11.5: SummaryExtractor.visit_paragraph not found')
+    copies = [c for c in calls_in(vp_) if call_name(c) == 'deepcopy']
+    if not copies:
+        raise AnalysisError('R11.5: SummaryExtractor.visit_paragraph no longer copies inline nodes into the summary')
+    mentioned = {x.attr for g in [vp_] + [h for h in se_.methods.values() if any(call_name(c) == h.name for c in calls_in(vp_))]
+                 for x in ast.walk(g.node) if isinstance(x, ast.Attribute) and x.attr in ('footnote_reference', 'citation_reference', 'reference')}
+    oks = {'footnote_reference', 'citation_reference', 'reference'} <= mentioned
+    chk.ob('R11.5', 'epydoc.markup.SummaryExtractor.visit_paragraph :: references into the same docstring are not copied into the summary', oks,
+           'footnote / citation / internal references are dropped or replaced by their text' if oks else
+           'inline nodes are copied verbatim (`child.deepcopy()`): a first paragraph containing `[1]_`, `[CLRS]_` or `` `the caveats`_ `` puts '
+           '`href="#rst-footnote-1"` on the parent\'s table, moduleIndex.html, classIndex.html, index.html - pages that do not have that anchor', vp_.loc)
+
     # ------------------------------------------------------------------ R11.3
     wd = repo.func(f'{WR}._writeDocsFor')
     cfg = CFG(wd)
